@@ -5,6 +5,7 @@
 (*   file   ::= block, block, ...       -- one or more                     *)
 (*   block  ::= header lines, then any number of S-lines and comment       *)
 (*              lines, then blank lines, then the count line, then edges   *)
+(*              (blank lines anywhere in a block carry no meaning)         *)
 (*   header ::= "# text"               -- the first header line is the id  *)
 (*   S-line ::= "#S n1 n2 ..."         -- a subpath constraint             *)
 (*   fields of S-lines and edge lines are separated by whitespace: a       *)
@@ -36,8 +37,8 @@ Corruptions == {"none", "edge_2_fields", "edge_4_fields", "weight_not_numeric", 
 ConsKinds == {"none", "one", "duplicate", "single_node", "two"}
 
 Separators == {"space", "tab"}        \* the field separator of S-lines and edge lines: any whitespace separates fields
-BlockDescs == [shape : 1..Len(Shapes), nhead : 1..2, cons : ConsKinds, blanks : 0..1, extra : BOOLEAN, corr : Corruptions,
-               sep : Separators]
+BlockDescs == [shape : 1..Len(Shapes), nhead : 1..2, cons : ConsKinds, blanks : 0..2, extra : BOOLEAN, corr : Corruptions,
+               sep : Separators]       \* blanks: 0 none, 1 a blank line before the count line, 2 a blank line inside the edge list
 Sep(b) == IF b.sep = "tab" THEN "\t" ELSE " "
 
 RECURSIVE JoinSp(_, _)
@@ -69,7 +70,8 @@ Lines(b, idtxt) ==
   \o <<IF b.corr = "count_not_numeric" THEN "four"
        ELSE IF b.corr = "count_trailing_token" THEN ToString(Cardinality(NodesOf(edges))) \o Sep(b) \o "x"   \* an integer followed by junk is not a count
        ELSE ToString(Cardinality(NodesOf(edges)))>>
-  \o [i \in 1..Len(edges) |-> EdgeLine(edges[i], b.corr, i = Len(edges), Sep(b))]
+  \o (LET el == [i \in 1..Len(edges) |-> EdgeLine(edges[i], b.corr, i = Len(edges), Sep(b))]
+      IN IF b.blanks = 2 /\ Len(el) >= 2 THEN <<el[1], "">> \o SubSeq(el, 2, Len(el)) ELSE el)
 
 Pairs(c) == [i \in 1..(Len(c) - 1) |-> <<c[i], c[i + 1]>>]
 ConsMeaning(b) ==
